@@ -60,6 +60,14 @@ CLAIMS = {
          "Exploration: a generated unit of messages (lines well below the block size, messages spanning blocks through continuation lines) repeated k, 4k, 16k times, block sizes 256..4096 and 65536, plain/gz/bz2/lz4, optional -a search; `blocks high`, `lines high`, `syslines high` of the largest file may exceed the middle file's only by a constant (strict at the default block size) and never by half or more of the added data. Three known findings (probed / excluded by construction).",
          "Trusts: the --summary high-water marks; constants calibrated on the unchanged tree. Known findings: newline on block end (plain), lines longer than a block, slow creep from failed drops at small block sizes.",
          "DESIGN.md section 4 C17"),
+ "C06": ("property-based testing (proptest) with harness-owned schedules: generated send-order plans and seeded jitter through cfg-guarded hooks, differential output oracle + history invariants over recorded traces",
+         "Exploration of schedules: each generated source set (1..8 sources, channels that fill, sources without messages) is run schedule-free and under 3..12 enforced schedules; stdout and exit status must be identical and equal to the reference merge, the run must end (deadlock classified from /proc), and every recorded trace must satisfy the protocol invariants (pending-set minimum printed, no print while a live source lacks a message, exactly-once, no live source at the end).",
+         "Trusts: the s4_verif hooks (send turnstile, jitter, trace); schedules are sampled not enumerated; preemption inside hook-free regions is not controlled.",
+         "DESIGN.md section 4 C06"),
+ "C18": ("property-based testing (proptest) over signal instants (fault injection): SIGINT delivered by the harness at generated instants, invariant TMPDIR-empty-after-exit",
+         "Fault-instant exploration: 1..6 compressed/archived journal and evtx sources extracted concurrently, extraction and temp-file registration stretched through hooks, one unsignalled and 4..16 signalled runs per case with instants uniform over the run, dense in the first 6 ms and just before the end; after exit the private TMPDIR must be empty and exit status 0/1 (or death by SIGINT before the handler exists); a signalled run must not simply run on (decidable for stretched runs).",
+         "Trusts: hooks for stretching; instants controlled to ~50-300 us; crash points sampled not enumerated. Known finding: interrupt before the first delivered message waits for the next datum.",
+         "DESIGN.md section 4 C18"),
 }
 PENDING_REASON = "check not built yet in this session (planned in DESIGN.md section 4); not claimed until its check exists and is silent on the unchanged tree"
 
